@@ -44,9 +44,11 @@ int main(int argc, char** argv) {
 		std::vector<unsigned> der(nd);
 		for (unsigned k = 0; k < 4; k++) { for (uint32_t d = 0; d < nd; d++) der[d] = (k + d) % 4; sink += t.ndsplineeval_deriv(in.x.data(), c.data(), der.data()); }
 		std::vector<double> g(nd + 1);
-		if (nd + 1 <= PHOTOSPLINE_MAXDIM) { t.ndsplineeval_gradient(in.x.data(), c.data(), g.data()); sink += g[0]; }
-		{ auto e = t.get_evaluator<float>(); sink += e.ndsplineeval(in.x.data(), c.data(), 0); sink += e(in.x.data()); sink += e.ndsplineeval_deriv(in.x.data(), c.data(), der.data()); if (nd + 1 <= PHOTOSPLINE_MAXDIM) e.ndsplineeval_gradient(in.x.data(), c.data(), g.data()); }
-		{ auto e = t.get_evaluator<double>(); sink += e.ndsplineeval(in.x.data(), c.data(), 0); sink += e(in.x.data()); if (nd + 1 <= PHOTOSPLINE_MAXDIM) e.ndsplineeval_gradient(in.x.data(), c.data(), g.data()); }
+		// gradient: requests the SIMD layout cannot serve must be refused by exception (ASan decides otherwise)
+		try { t.ndsplineeval_gradient(in.x.data(), c.data(), g.data()); sink += g[0]; if (nd + 1 > PHOTOSPLINE_MAXDIM) { std::printf("CLAUSE VIOLATED: gradient of a %u-dimensional table was not refused\n", nd); bad = 1; } }
+		catch (std::runtime_error&) { if (nd + 1 <= PHOTOSPLINE_MAXDIM) { std::printf("CLAUSE VIOLATED: gradient refused for a servable table\n"); bad = 1; } }
+		{ auto e = t.get_evaluator<float>(); sink += e.ndsplineeval(in.x.data(), c.data(), 0); sink += e(in.x.data()); sink += e.ndsplineeval_deriv(in.x.data(), c.data(), der.data()); try { e.ndsplineeval_gradient(in.x.data(), c.data(), g.data()); } catch (std::runtime_error&) {} }
+		{ auto e = t.get_evaluator<double>(); sink += e.ndsplineeval(in.x.data(), c.data(), 0); sink += e(in.x.data()); try { e.ndsplineeval_gradient(in.x.data(), c.data(), g.data()); } catch (std::runtime_error&) {} }
 		(void)sink;
 	}
 	std::printf(bad ? "REPLAY: VIOLATION CONFIRMED\n" : "REPLAY: no violation observed\n");
